@@ -35,7 +35,27 @@ def _hang_handler(signum, frame):
     raise SchedulerHang("scheduler call did not return within the wall-clock budget")
 
 
+def _stub():
+    return None
+
+
+class PW:
+    """Callable wrapper that pickles as a stub (keeps Tuner.save cheap and free of harness state)."""
+
+    def __init__(self, fn):
+        self.fn = fn
+
+    def __call__(self, *args, **kwargs):
+        return self.fn(*args, **kwargs)
+
+    def __reduce__(self):
+        return (_stub, ())
+
+
 class Recorder(TunerCallback):
+    def __reduce__(self):
+        return (_stub, ())  # Tuner.save dill-pickles the tuner: probes are not part of the system under test
+
     def __init__(self, sim, scen):
         self.sim = sim
         self.scen = scen
@@ -194,7 +214,7 @@ def wrap_scheduler(sim, scheduler, latency, hooks=None, hang_limit=12.0):
     for name in SCHED_METHODS:
         orig = getattr(scheduler, name)
         originals[name] = orig
-        setattr(scheduler, name, make(name, orig))
+        setattr(scheduler, name, PW(make(name, orig)))
     return originals
 
 
@@ -263,4 +283,4 @@ def wrap_backend(sim, backend, latency, truth=None):
 
     for name in BACKEND_METHODS:
         orig = getattr(backend, name)
-        setattr(backend, name, make(name, orig))
+        setattr(backend, name, PW(make(name, orig)))
